@@ -8,6 +8,7 @@ One JSON object per input line = one case:
 ```
 {"timeout":T, "enc":[[id,"hex"],...], "dec":[["hex",id],...], "none":[ids] (pinned mode only), "cbdisc":[ids],
  "pinned":false, "init":{"sock":true,"now":0},
+ "ondisc": null | {"ok":b,"msgs":[ids]}   (onDisconnected callback: connect(), then send each message; `stepCb`),
  "evs":[{"k":"send","m":id,"now":n,"s":[SendRes...]},
         {"k":"poll","d":true,"rd":b,"wr":b,"er":b,"now":n,"so":b,"oc":b,"s":[SendRes...],"r":[RecvRes...]},
         {"k":"disc"}, {"k":"conn","ok":b,"now":n}]}
@@ -137,15 +138,19 @@ def runCase (j : Json) : Json :=
   let ini := getD j "init"
   let c0 : Conn Nat := Conn.init (getBool ini "sock") (getNat ini "now")
   let evs := (getArr j "evs").toList.map parseEv
-  let (cN, steps, undec) := evs.foldl (fun (acc : Conn Nat × Array Json × List Bytes) ev =>
-      let (c, steps, undec) := acc
+  let cb : Option (DiscCb Nat) := match j.getObjVal? "ondisc" with
+    | .ok o => if o.isNull then none else
+        some { ok := getBool o "ok", msgs := (getArr o "msgs").toList.map fun x => x.getNat?.toOption.getD 0 }
+    | .error _ => none
+  let (cN, steps, undec, _) := evs.foldl (fun (acc : Conn Nat × Array Json × List Bytes × Nat) ev =>
+      let (c, steps, undec, clock) := acc
       let c' := match pinned, ev with
         | true, .poll e => pollPinned cfg nones c e
-        | _, _ => step cfg c ev
+        | _, _ => stepCb cfg cb clock c ev
       let ud := match ev with
         | .poll e => if e.rd && c'.nDisc > c.nDisc then undecodable cfg (recvLoop c e.recvs).rbuf else []
         | _ => []
-      (c', steps.push (stepRecord c'), undec ++ ud)) (c0, #[], [])
+      (c', steps.push (stepRecord c'), undec ++ ud, evTime clock ev)) (c0, #[], [], getNat ini "now")
   Json.mkObj [("steps", Json.arr steps),
               ("delivered", Json.arr (cN.delivered.toArray.map fun (n : Nat) => (n : Json))),
               ("undec", Json.arr (undec.toArray.map fun b => Json.str (hex b)))]
